@@ -346,14 +346,16 @@ HEADER = ('From Coq Require Import List ZArith NArith String.\nImport ListNotati
 class Ops(Stream):
     name = 'ops'
     header = HEADER
-    case_type = '(verdicts * dtype * list spec) * val'
+    case_type = '(verdicts * dtype * list (list spec)) * val'
     check_fn = 'check_ops'
-    rule = ('a Delegations object built through the API from 0..6 delegation specs (type, id, format, pool name, '
-            'optional details dictionary incl. ill-typed / invalid ones), then to_json and from_json; non-trivial = at '
+    rule = ('a Delegations object built through the API from 0..7 delegation specs (type, id, format, pool name, '
+            'optional details dictionary incl. ill-typed / invalid ones) handed to add_delegations in calls of 1..4 '
+            'arguments (incl. the same id twice in one call), then to_json and from_json; non-trivial = at '
             'least two delegations were added and the encoding succeeded; distinct by case value')
 
     def gen(self, rng, tier):
-        n = 500 if tier == 'quick' else 12000
+        self.shard = 130 if tier == 'quick' else 400   # small shards: the quick tier then uses all jobs
+        n = 500 if tier == 'quick' else 8000
         out = []
         for _ in range(n):
             ty = rng.choice([CAP, LAB])
@@ -375,7 +377,17 @@ class Ops(Stream):
                     if mode >= 6 and rng.random() < 0.1:
                         details = None
                 specs.append({'type': sty, 'id': i, 'fmt': fmt, 'pool': pool, 'details': details})
-            out.append({'ty': ty, 'specs': specs})
+            if mode >= 8 and specs and rng.random() < 0.6:      # the same id twice, next to each other
+                k = rng.randrange(len(specs))
+                specs.insert(k + 1, dict(copy.deepcopy(specs[k]), fmt=rng.choice(['single', 'def', 'ref'])))
+                if specs[k + 1]['fmt'] != 'single' and specs[k + 1]['pool'] is None:
+                    specs[k + 1]['pool'] = 'p1'
+            batches = []
+            while specs:                                        # add_delegations calls of 1..4 arguments
+                k = rng.choice([1, 1, 2, 3, 4])
+                batches.append(specs[:k])
+                specs = specs[k:]
+            out.append({'ty': ty, 'batches': batches})
         return out
 
     def corpus(self):
@@ -396,32 +408,36 @@ class Ops(Stream):
         ty = case['ty']
         ds = D.Delegations(atype=T(ty))
         outs = []
-        for s in case['specs']:
-            try:
-                d = D.Delegation(atype=T(s['type']), delegation_id=s['id'], aformat=F(s['fmt']), pool_id=s['pool'])
-            except Exception as e:
-                outs.append([err(e)])
-                continue
-            steps = [True]
-            if s['details'] is not None:
-                kind, dd = s['details']
+        for batch in batches_of(case):
+            built, steps_all = [], []
+            for s in batch:
                 try:
-                    obj = mk_obj(kind, dd)
+                    d = D.Delegation(atype=T(s['type']), delegation_id=s['id'], aformat=F(s['fmt']), pool_id=s['pool'])
                 except Exception as e:
-                    steps.append(err(e))
-                else:
-                    steps.append(True)
+                    steps_all.append([err(e)])
+                    continue
+                steps = [True]
+                if s['details'] is not None:
+                    kind, dd = s['details']
                     try:
-                        d.set_details(obj)
-                        steps.append(True)
+                        obj = mk_obj(kind, dd)
                     except Exception as e:
                         steps.append(err(e))
+                    else:
+                        steps.append(True)
+                        try:
+                            d.set_details(obj)
+                            steps.append(True)
+                        except Exception as e:
+                            steps.append(err(e))
+                built.append(d)
+                steps_all.append(steps)
             try:
-                ds.add_delegations(d)
-                steps.append(True)
+                ds.add_delegations(*built)          # ONE call for the whole batch
+                r = True
             except Exception as e:
-                steps.append(err(e))
-            outs.append(steps)
+                r = err(e)
+            outs.append([steps_all, r, [v.delegation_id for v in ds.delegations.values()]])
         struct = obs_delegations(ds)
         keys_ok = [k for k in ds.delegations.keys()] == [v.delegation_id for v in ds.delegations.values()]
         text, dec, extra = None, None, []
@@ -438,53 +454,79 @@ class Ops(Stream):
             except Exception as e:
                 dec = err(e)
         return {'outs': outs, 'ds': struct, 'enc': enc, 'dec': dec, 'keys_ok': keys_ok, 'extra': extra,
-                'verdicts': verdicts_for([s['details'][1] for s in case['specs'] if s['details'] and s['details'][0] == LAB])}
+                'verdicts': verdicts_for([s['details'][1] for b in batches_of(case) for s in b
+                                          if s['details'] and s['details'][0] == LAB])}
 
     def to_coq(self, case, o):
         return '((%s, %s, %s), %s)' % (c_verdicts(o['verdicts']), c_ty(case['ty']),
-                                       clist([c_spec(s) for s in case['specs']]),
+                                       clist([clist([c_spec(s) for s in b]) for b in batches_of(case)]),
                                        py_val([o['outs'], o['ds'], o['enc'], o['dec']]))
 
     def oracle(self, case, o):
         ty = case['ty']
-        added = []
-        for s, steps in zip(case['specs'], o['outs']):
-            if is_err(steps[0]):
-                if s['fmt'] == 'single' or s['pool'] is not None:
-                    return 'constructor refused a well-formed delegation %r' % s['id']
-                continue
-            has_details = False
-            i = 1
-            if s['details'] is not None:
-                kind = s['details'][0]
-                if not is_err(steps[1]):
-                    r = steps[2]
+        held = []                       # ids in the container, as the property prescribes
+        accepted = {}                   # id -> spec (+ has_details) of what must be in the container
+        for batch, (steps_all, r, ids_after) in zip(batches_of(case), o['outs']):
+            args = []
+            for s, steps in zip(batch, steps_all):
+                if is_err(steps[0]):
+                    if s['fmt'] == 'single' or s['pool'] is not None:
+                        return 'constructor refused a well-formed delegation %r' % s['id']
+                    continue
+                has_details = False
+                if s['details'] is not None and not is_err(steps[1]):
+                    kind = s['details'][0]
+                    rs = steps[2]
                     if s['fmt'] == 'ref':
-                        if not (is_err(r) and r['err'] == 'DelegationException'):
+                        if not (is_err(rs) and rs['err'] == 'DelegationException'):
                             return 'details on a pool reference were not rejected (delegation %r)' % s['id']
                     elif kind != s['type']:
-                        if not (is_err(r) and r['err'] == 'DelegationException'):
+                        if not (is_err(rs) and rs['err'] == 'DelegationException'):
                             return 'mixing: %s details on a %s delegation were not rejected (delegation %r)' % (kind, s['type'], s['id'])
-                    elif is_err(r):
-                        return 'well-typed details refused: ' + r['err']
+                    elif is_err(rs):
+                        return 'well-typed details refused: ' + rs['err']
                     else:
                         has_details = True
-                    i = 3
-                else:
-                    i = 2
-            r = steps[i]
-            if s['type'] != ty:
-                if not is_err(r):
-                    return 'a %s delegation was added to a %s container' % (s['type'], ty)
-            elif s['id'] in [a['id'] for a in added]:
-                if not (is_err(r) and r['err'] == 'DelegationException'):
-                    return 'duplicate delegation id %r was not rejected' % s['id']
-            elif is_err(r):
-                return 'add_delegations refused a new id: ' + r['err']
+                args.append(dict(s, has_details=has_details))
+            # the one add_delegations call of this batch
+            seen = list(held)
+            offender = None
+            for k, a in enumerate(args):
+                if a['type'] != ty:
+                    offender = (k, 'foreign')
+                    break
+                if a['id'] in seen:
+                    offender = (k, 'duplicate')
+                    break
+                seen.append(a['id'])
+            if offender is None:
+                if is_err(r):
+                    return 'add_delegations refused new ids %r: %s' % ([a['id'] for a in args], r['err'])
+                held = seen
+                for a in args:
+                    accepted[a['id']] = a
             else:
-                added.append(dict(s, has_details=has_details))
-        if not o['keys_ok'] or [d[1] for d in o['ds'][1]] != [a['id'] for a in added]:
+                k, what = offender
+                if what == 'duplicate' and not (is_err(r) and r['err'] == 'DelegationException'):
+                    return 'duplicate delegation id %r in %r (container held %r) was not rejected' % (
+                        args[k]['id'], [a['id'] for a in args], held)
+                if what == 'foreign' and not is_err(r):
+                    return 'a %s delegation was added to a %s container' % (args[k]['type'], ty)
+                # a refused call may leave the arguments before the offender in the container, or none of them
+                if ids_after == held + [a['id'] for a in args[:k]]:
+                    for a in args[:k]:
+                        accepted[a['id']] = a
+                    held = ids_after
+                elif ids_after != held:
+                    return 'a refused add_delegations call left %r in the container (held %r before)' % (ids_after, held)
+            if ids_after != held:
+                return 'after add_delegations the container holds %r, expected %r' % (ids_after, held)
+        if not o['keys_ok'] or [d[1] for d in o['ds'][1]] != held:
             return 'the container does not hold exactly the accepted delegations, keyed by their ids'
+        for d in o['ds'][1]:
+            a = accepted[d[1]]
+            if [d[0], d[2], d[3]] != [TY_CODE[a['type']], FMT_CODE[a['fmt']], a['pool']] or (d[4] is not None) != a['has_details']:
+                return 'the container holds %r for the accepted delegation %r' % (d, a)
         if o['extra']:
             return 'unexpected keys in the encoding: %r' % o['extra']
         encodable = all(d[2] == 2 or nonempty_det(d[4]) for d in o['ds'][1])
@@ -513,26 +555,39 @@ class Ops(Stream):
         return None
 
     def histogram(self, cases, obs):
-        h = {'encoded': 0, 'encode_refused': 0, 'set_details_rejected': 0, 'add_rejected': 0, 'object_refused': 0,
-             'n_added': {}, 'formats': {'def': 0, 'ref': 0, 'single': 0}}
+        h = {'encoded': 0, 'encode_refused': 0, 'set_details_rejected': 0, 'add_calls': 0, 'add_calls_rejected': 0,
+             'multi_argument_calls': 0, 'object_refused': 0, 'n_added': {}, 'formats': {'def': 0, 'ref': 0, 'single': 0}}
         for c, o in zip(cases, obs):
             h['encoded'] += not is_err(o['enc'])
             h['encode_refused'] += is_err(o['enc'])
             k = str(len(o['ds'][1]))
             h['n_added'][k] = h['n_added'].get(k, 0) + 1
-            for s, st in zip(c['specs'], o['outs']):
-                h['formats'][s['fmt']] += 1
-                if len(st) >= 2 and s['details'] is not None:
-                    h['object_refused'] += is_err(st[1])
-                    h['set_details_rejected'] += len(st) >= 3 and is_err(st[2])
-                h['add_rejected'] += is_err(st[-1]) and len(st) > 1
+            for batch, (steps_all, r, _) in zip(batches_of(c), o['outs']):
+                h['add_calls'] += 1
+                h['add_calls_rejected'] += is_err(r)
+                h['multi_argument_calls'] += len(batch) > 1
+                for s, st in zip(batch, steps_all):
+                    h['formats'][s['fmt']] += 1
+                    if len(st) >= 2 and s['details'] is not None:
+                        h['object_refused'] += is_err(st[1])
+                        h['set_details_rejected'] += len(st) >= 3 and is_err(st[2])
         return h
 
     def describe(self, case, o):
         return {'case': case, 'impl': {k: o[k] for k in ('outs', 'enc', 'dec')}}
 
     def shrink(self, case, failing):
-        return shrink_lists(case, [['specs']], failing)
+        c = {'ty': case['ty'], 'batches': copy.deepcopy(batches_of(case))}
+        c = shrink_lists(c, [['batches']], failing)
+        return shrink_lists(c, [['batches', i] for i in range(len(c['batches']))], failing)
+
+
+def batches_of(case):
+    """ops cases: 'batches' = list of add_delegations calls (each a list of specs); older corpus cases carry a flat
+    'specs' list = one call per delegation"""
+    if 'batches' in case:
+        return case['batches']
+    return [[s] for s in case['specs']]
 
 
 # ------------------------------------------------------------------------------------------------
@@ -618,7 +673,8 @@ class Json(Stream):
             'from_json, re-encoded; non-trivial = decoded successfully with >= 2 entries or rejected; distinct by case value')
 
     def gen(self, rng, tier):
-        n = 500 if tier == 'quick' else 12000
+        self.shard = 130 if tier == 'quick' else 400   # small shards: the quick tier then uses all jobs
+        n = 500 if tier == 'quick' else 8000
         out = []
         for _ in range(n):
             ty = rng.choice([CAP, LAB])
@@ -904,7 +960,8 @@ class PoolsS(Stream):
         return out
 
     def gen(self, rng, tier):
-        n = 400 if tier == 'quick' else 10000
+        self.shard = 130 if tier == 'quick' else 400   # small shards: the quick tier then uses all jobs
+        n = 400 if tier == 'quick' else 6000
         ex = self.exhaustive()
         out = ex if tier != 'quick' else rng.sample(ex, 60)
         for _ in range(n):
@@ -1066,7 +1123,8 @@ class Inc(Stream):
             'non-trivial = at least two pools result or the run is rejected; distinct by case value')
 
     def gen(self, rng, tier):
-        n = 300 if tier == 'quick' else 8000
+        self.shard = 130 if tier == 'quick' else 400   # small shards: the quick tier then uses all jobs
+        n = 300 if tier == 'quick' else 5000
         out = []
         for _ in range(n):
             ty = rng.choice([CAP, LAB])
@@ -1187,7 +1245,8 @@ class Annotate(Stream):
             'single delegation written, or a rejection; distinct by case value')
 
     def gen(self, rng, tier):
-        n = 200 if tier == 'quick' else 5000
+        self.shard = 130 if tier == 'quick' else 400   # small shards: the quick tier then uses all jobs
+        n = 200 if tier == 'quick' else 3000
         out = []
         for _ in range(n):
             ty = rng.choice([CAP, LAB])
